@@ -58,6 +58,12 @@ func (m *Machine) callCommon(g *Goroutine, fr *Frame, cc *ssa.CallCommon, instr 
 			}
 			return st
 		}
+		if _, isOpq := recv.v.(OpaqueVal); isOpq && m.inInit {
+			if iv, ok := instr.(ssa.Value); ok {
+				fr.locals[iv] = m.opaqueResult(cc.Signature().Results())
+			}
+			return stNext
+		}
 		fn := m.prog.LookupMethod(recv.typ, cc.Method.Pkg(), cc.Method.Name())
 		if fn == nil {
 			panic(abortf("no method %s on %s", cc.Method.Name(), recv.typ))
@@ -137,6 +143,10 @@ func (m *Machine) invokeValue(g *Goroutine, fr *Frame, fnv Value, args []Value, 
 			return finish(v)
 		}
 		return st
+	}
+	if m.inInit && fv.fn.Pkg != nil && !m.ld.isRepoPkg(fv.fn.Pkg.Pkg.Path()) && fv.fn.Pkg.Pkg.Path() != "errors" {
+		// package initialisers calling un-modelled externals get opaque values
+		return finish(m.opaqueResult(fv.fn.Signature.Results()))
 	}
 	if isDefer {
 		m.pushFrame(g, fv.fn, args, fv.bind, nil, func(Value) {})
@@ -530,4 +540,28 @@ func decodeRune(s string) (rune, int) {
 		return r, n
 	}
 	return 0, 0
+}
+
+func (m *Machine) opaqueOf(t types.Type) Value {
+	switch t.Underlying().(type) {
+	case *types.Interface:
+		return IfaceVal{typ: m.ld.ctxMarker, v: OpaqueVal{typ: t, tag: "init-opaque"}}
+	case *types.Pointer:
+		return PtrVal{obj: m.newObj(OpaqueVal{typ: t, tag: "init-opaque"}, nil, "opaque")}
+	}
+	return m.zero(t)
+}
+
+func (m *Machine) opaqueResult(res *types.Tuple) Value {
+	switch res.Len() {
+	case 0:
+		return nil
+	case 1:
+		return m.opaqueOf(res.At(0).Type())
+	}
+	tv := make(TupleVal, res.Len())
+	for i := range tv {
+		tv[i] = m.opaqueOf(res.At(i).Type())
+	}
+	return tv
 }
